@@ -242,14 +242,16 @@ class Histories(SubCheck):
 
         @st.composite
         def case(draw):
+            # few keys: items are read and re-stored repeatedly before they are evicted (matters for LFU/LRU bookkeeping, so
+            # those policies are drawn more often then)
+            nkeys = draw(st.sampled_from([24, 24, 7, 7]))
             cfg = {
-                'eviction_policy': draw(st.sampled_from(POLICIES)),
+                'eviction_policy': draw(st.sampled_from(POLICIES if nkeys > 7 else ['least-frequently-used', 'least-frequently-used', 'least-recently-used'] + list(POLICIES))),
                 'cull_limit': draw(st.sampled_from([0, 1, 2, 10])),
                 'size_limit': draw(st.sampled_from(SIZE_LIMITS)),
                 'disk_min_file_size': 1024,
             }
-            # few keys: items are read and re-stored repeatedly before they are evicted (matters for LFU/LRU bookkeeping)
-            seq = draw(st.lists(ops(draw(st.sampled_from([24, 24, 7]))), min_size=15, max_size=steps))
+            seq = draw(st.lists(ops(nkeys), min_size=15, max_size=steps))
             return {'cfg': cfg, 'ops': seq}
 
         return case()
